@@ -2130,4 +2130,113 @@ theorem pyCallPO_eq (npo : Nat) (s : Sig) (c : Call)
   unfold pyCallPO pyCall pyBindPO pyBind nameArgsPO nameArgs
   rw [bindKwPO_eq npo s c.kwargs c.kwargs _ hall h]
 
+
+
+theorem kget_withDefaults (f : KW) (ps : List Param) (hnd : (ps.map (·.name)).Nodup) :
+    (∀ p ∈ ps, kget (withDefaults f ps) p.name = pval f p) ∧
+    (∀ k, k ∉ ps.map (·.name) → kget (withDefaults f ps) k = none) := by
+  induction ps with
+  | nil => simp [withDefaults, kget]
+  | cons p ps ih =>
+    simp only [List.map_cons, List.nodup_cons] at hnd
+    obtain ⟨ih1, ih2⟩ := ih hnd.2
+    have hunf : withDefaults f (p :: ps) =
+        (match pval f p with | some v => [(p.name, v)] | none => []) ++ withDefaults f ps := by
+      simp only [withDefaults, List.filterMap_cons, pval]
+      cases (kget f p.name).orElse (fun _ => p.dflt) <;> simp
+    constructor
+    · intro q hq
+      rw [hunf, kget_append]
+      rcases List.mem_cons.1 hq with rfl | hq
+      · cases hv : pval f q with
+        | some v => simp only [kget_cons, if_true]
+        | none => simp only [kget_nil]; exact ih2 _ hnd.1
+      · have hne : p.name ≠ q.name := fun e => hnd.1 (e ▸ List.mem_map.2 ⟨q, hq, rfl⟩)
+        cases hv : pval f p with
+        | some v => simp only [kget_cons, hne, if_false, kget_nil]; exact ih1 q hq
+        | none => simp only [kget_nil]; exact ih1 q hq
+    · intro k hk
+      simp only [List.map_cons, List.mem_cons, not_or] at hk
+      rw [hunf, kget_append]
+      cases hv : pval f p with
+      | some v =>
+        have : p.name ≠ k := fun e => hk.1 e.symm
+        simp only [kget_cons, this, if_false, kget_nil]; exact ih2 k hk.2
+      | none => simp only [kget_nil]; exact ih2 k hk.2
+
+theorem keys_withDefaults_sub (f : KW) (ps : List Param) : ∀ k ∈ keys (withDefaults f ps), k ∈ ps.map (·.name) := by
+  intro k hk
+  obtain ⟨q, hq, rfl⟩ := exists_of_mem_keys hk
+  simp only [withDefaults, List.mem_filterMap] at hq
+  obtain ⟨p, hp, hpq⟩ := hq
+  cases hv : (kget f p.name).orElse (fun _ => p.dflt) with
+  | none => rw [hv] at hpq; cases hpq
+  | some v => rw [hv] at hpq; cases hpq; exact List.mem_map.2 ⟨p, hp, rfl⟩
+
+theorem reportOne_pval (f : KW) (p : Param) (g : Name → Option V) (h : g p.name = pval f p) :
+    reportOne g p = reportOne (kget f) p := by
+  unfold reportOne
+  rw [h]
+  unfold pval
+  cases kget f p.name <;> cases p.dflt <;> rfl
+
+/-- The arguments reported after a JSON round trip are the arguments reported before. -/
+theorem symInitArgs_json (s : Sig) (hwf : s.wf = true) (F : Functor) (hsig : F.sig = s)
+    (hva : F.va.isSome = true → s.varargs.isSome = true) :
+    symInitArgs F.jsonRoundTrip = symInitArgs F := by
+  have hpn : (s.pos.map (·.name)).Nodup := Sig.wf_pos_nodup hwf
+  have hkn : (s.kwonly.map (·.name)).Nodup := Sig.wf_kw_nodup hwf
+  obtain ⟨hp1, hp2⟩ := kget_withDefaults F.bound s.pos hpn
+  obtain ⟨hk1, hk2⟩ := kget_withDefaults F.bound s.kwonly hkn
+  have hex : ∀ k, s.names.contains k = true →
+      kget (F.bound.filter (fun p => !(s.names.contains p.1))) k = none := by
+    intro k hk; rw [kget_filter (fun k => !(s.names.contains k)), hk]; rfl
+  have hget : ∀ p ∈ s.params, kget (withDefaults F.bound s.pos ++ withDefaults F.bound s.kwonly
+      ++ F.bound.filter (fun p => !(s.names.contains p.1))) p.name = pval F.bound p := by
+    intro p hp
+    rw [List.append_assoc, kget_append]
+    rcases List.mem_append.1 hp with hp | hp
+    · rw [hp1 p hp]
+      cases hv : pval F.bound p with
+      | some v => rfl
+      | none =>
+        simp only
+        have hpk : p.name ∉ s.kwonly.map (·.name) := by
+          intro h; exact Sig.wf_kw_not_pos hwf h (List.mem_map.2 ⟨p, hp, rfl⟩)
+        rw [kget_append, hk2 _ hpk]
+        exact hex _ (Sig.pos_sub_names s (List.mem_map.2 ⟨p, hp, rfl⟩))
+    · have hpp : p.name ∉ s.pos.map (·.name) :=
+        Sig.wf_kw_not_pos hwf (List.mem_map.2 ⟨p, hp, rfl⟩)
+      rw [hp2 _ hpp]
+      simp only
+      rw [kget_append, hk1 p hp]
+      cases hv : pval F.bound p with
+      | some v => rfl
+      | none =>
+        exact hex _ (List.contains_iff_mem.2 (List.mem_append_right _ (List.mem_map.2 ⟨p, hp, rfl⟩)))
+  have hfil : (withDefaults F.bound s.pos ++ withDefaults F.bound s.kwonly
+      ++ F.bound.filter (fun p => !(s.names.contains p.1))).filter (fun p => !(s.names.contains p.1))
+      = F.bound.filter (fun p => !(s.names.contains p.1)) := by
+    rw [List.filter_append, List.filter_append, List.filter_filter]
+    rw [List.filter_eq_nil_iff.2, List.filter_eq_nil_iff.2]
+    · simp
+    · intro q hq
+      have := keys_withDefaults_sub _ _ _ (mem_keys_of_mem hq)
+      have hc : s.names.contains q.1 = true := List.contains_iff_mem.2 (List.mem_append_right _ this)
+      rw [hc]; simp
+    · intro q hq
+      have := keys_withDefaults_sub _ _ _ (mem_keys_of_mem hq)
+      rw [Sig.pos_sub_names s this]; simp
+  have hvaeq : (s.varargs.map (fun _ => F.va.getD [])).getD [] = F.va.getD [] := by
+    cases hv : s.varargs with
+    | some vn => rfl
+    | none =>
+      cases hf : F.va with
+      | none => rfl
+      | some xs => have := hva (by rw [hf]; rfl); rw [hv] at this; cases this
+  unfold symInitArgs Functor.jsonRoundTrip reportArgs reportWith
+  simp only [hsig, hfil, hvaeq]
+  rw [List.map_congr_left (fun p hp => reportOne_pval F.bound p _ (hget p (List.mem_append_left _ hp))),
+      List.map_congr_left (fun p hp => reportOne_pval F.bound p _ (hget p (List.mem_append_right _ hp)))]
+
 end Pg.C18
